@@ -32,6 +32,10 @@ type descriptor struct {
 	// nested embedded sub-processes (events handed to the instance must reach
 	// the alternatives there just the same)
 	InSub int `json:"inSub,omitempty"`
+	// IncMerge: the branches merge in an INCLUSIVE gateway (instead of the
+	// exclusive one): only the winner's token ever arrives, the withdrawn
+	// alternatives must not keep the join waiting
+	IncMerge bool `json:"incMerge,omitempty"`
 }
 
 const timerExpr = "PT10S"
@@ -62,6 +66,9 @@ func build(d descriptor) *gen.Graph {
 	var mrg *gen.Node
 	if d.Merge {
 		mrg = b.Add(gen.KXor)
+		if d.IncMerge {
+			mrg.Kind = gen.KInc
+		}
 		en := b.Add(gen.KEnd)
 		b.Connect(mrg, en)
 	}
@@ -97,6 +104,7 @@ func draw(rt *rapid.T) descriptor {
 	n := rapid.IntRange(2, 3).Draw(rt, "alts")
 	d.Timer = rapid.IntRange(0, 2).Draw(rt, "timerAlt") == 0
 	d.InSub = rapid.SampledFrom([]int{0, 0, 0, 1, 2}).Draw(rt, "inSub")
+	d.IncMerge = d.Merge && rapid.IntRange(0, 2).Draw(rt, "incMerge") == 0
 	for i := 0; i < n; i++ {
 		ref := fmt.Sprintf("a%d", i)
 		if d.Timer && i == n-1 {
@@ -262,6 +270,9 @@ func classify(d descriptor, out *drive.ScriptOutcome) (cls []string, nt bool) {
 	}
 	if d.InSub > 0 {
 		cls = append(cls, "insideSubProcess")
+	}
+	if d.IncMerge {
+		cls = append(cls, "inclusiveMerge")
 	}
 	if timerRace {
 		cls = append(cls, "timerDueDuringConcurrentDelivery")
